@@ -46,6 +46,50 @@ ENDPOINTS = (
 )
 
 
+DEFAULT_NAMES = ('hosta', 'hostb', 'hostc')
+HOSTNAMES = DEFAULT_NAMES
+
+# host name triples of a case (field 'names'); most contain names of which one
+# is a proper prefix / suffix / substring of another, so that a comparison by
+# startswith / endswith / `in` instead of equality has something to confuse
+NAME_SETS = (
+    DEFAULT_NAMES,
+    ('node1', 'node10', 'node2'),
+    ('node10', 'node1', 'node1-b'),
+    ('tm-srv', 'tm-srv-b', 'xtm-srv'),
+    ('srv', 'tm-srv', 'tm-srv-b'),
+    ('node1', 'node11', 'node111'),
+)
+
+
+def name_set(sel):
+    """Triple number sel % 6, rotated by (sel // 6) % 3."""
+    names = NAME_SETS[sel % len(NAME_SETS)]
+    rot = (sel // len(NAME_SETS)) % 3
+    return list(names[rot:] + names[:rot])
+
+
+def host_names(case, stats, used=3):
+    """Host names of a case (+ counters on how they relate)."""
+    names = tuple(case.get('names') or DEFAULT_NAMES)
+    assert len(names) == 3 and len(set(names)) == 3, names
+    prefix = substr = False
+    for one in names[:used]:
+        for two in names[:used]:
+            if one != two and two.startswith(one):
+                prefix = True
+            if one != two and one in two:
+                substr = True
+    if stats is not None:
+        if prefix:
+            stats.count('cases_hosts_prefix_related')
+        if substr:
+            stats.count('cases_hosts_substring_related')
+        if not substr:
+            stats.count('cases_hosts_unrelated')
+    return names
+
+
 class HarnessError(Exception):
     """Something the harness itself got wrong (exit 2, never a violation)."""
 
@@ -219,7 +263,7 @@ class Host(object):
     def __init__(self, world, idx):
         self.world = world
         self.idx = idx
-        self.name = 'host%s' % 'abc'[idx]
+        self.name = world.names[idx]
         self.requests = {}     # rid -> data       (the service rsrc dir)
         self.queue = []        # [(kind, rid)]     (pending dirwatch events)
         self.current = None
@@ -265,7 +309,8 @@ class Host(object):
 class World(object):
     """Shared tree + hosts + oracle."""
 
-    def __init__(self, nhosts, stats=None):
+    def __init__(self, nhosts, stats=None, names=None):
+        self.names = tuple(names or DEFAULT_NAMES)
         self.stats = stats
         self.clock = [1000]
         self.tree = fakezk.Tree(lambda: self.clock[0])
@@ -844,7 +889,8 @@ OPS = ('new', 'del', 'exp', 'rst', 'kill', 'wat', 'step', 'fin')
 
 def run_schedule(case, stats):
     """Interpret one kind='sched' case. Returns the set of class flags."""
-    world = World(case['hosts'], stats)
+    world = World(case['hosts'], stats,
+                  host_names(case, stats, case['hosts']))
     try:
         for op in case['ops']:
             name = op[0]
@@ -878,7 +924,6 @@ def run_schedule(case, stats):
 # kind = 'unreg': EndpointPresence.unregister_* / kill_node on generated states
 # ---------------------------------------------------------------------------
 
-HOSTNAMES = ('hosta', 'hostb', 'hostc')
 
 
 def _endpoint_list(indices, serial):
@@ -900,6 +945,7 @@ def run_unregister(case, stats):
                      'ident_owner': owner|None}, ...], 'target': i}
     owner = index into HOSTNAMES.
     """
+    HOSTNAMES = host_names(case, stats)  # pylint: disable=invalid-name
     tree = fakezk.Tree(lambda: 1000)
     admin = fakezk.Client(tree)
     sessions = [fakezk.Client(tree) for _ in HOSTNAMES]
@@ -1034,6 +1080,7 @@ def run_unschedule(case, stats):
     """case: {'kind': 'unsched', 'me': h, 'via': 'direct'|'publish',
               'event': str, 'target': i,
               'insts': [{'placed': [hosts], 'scheduled': bool}, ...]}"""
+    HOSTNAMES = host_names(case, stats)  # pylint: disable=invalid-name
     from treadmill.trace.app import zk as tazk
 
     tree = fakezk.Tree(lambda: 1000)
@@ -1156,6 +1203,7 @@ def run_register(case, stats):
     nodes listed in 'held' and goes away at virtual time `seconds` (checked at
     every time.sleep) or right before the k-th ZooKeeper call of the new
     session, or never."""
+    HOSTNAMES = host_names(case, stats)  # pylint: disable=invalid-name
     from treadmill import exc as tm_exc
 
     tree = fakezk.Tree(lambda: 1000)
